@@ -756,52 +756,66 @@ def raise_after_effect(chk, pid):
         chk.ob(f"{q}::no-raise-after-mutation", not bad, f"{pid}.atomic",
                "; ".join(f"`raise {n}` at line {r.lineno} can follow the mutation `{v.src(m)[:70]}` (line {m.lineno})"
                          for m, r, n in bad[:2]) or "all refusals precede every mutation", v.f, bad[0][1] if bad else None)
-    # degenerate result of an in-place scale must be refused before the stores
-    v = FV(repo, "region.Region.scale")
+    # a degenerate result of an in-place step must be refused before the stores (the copying form is refused by the constructor)
+    for q in ("region.Region.scale", "region.Region.translate", "region.Region.rotate90"):
+        inplace_degenerate_refused(chk, pid, q)
+
+
+def inplace_degenerate_refused(chk, pid, q):
+    repo = chk.repo
+    v = FV(repo, q)
     ifst = inplace_if(v)
     st = _store_terms(v, list(walk_stmts(ifst.body)))
-    first = st["_pmin"][0]
+    chk.require("_pmin" in st and "_pmax" in st, f"{q}: in-place corner stores vanished")
+    first = st["_pmin"][0] if v.cfg.reachable(v.cfg.node(st["_pmin"][0]), v.cfg.node(st["_pmax"][0])) else st["_pmax"][0]
+    # the two values whose difference is the new extent: the operands of the min/max pair, or the stored corners themselves
+    cs = decode_call(v.ctx, st["_pmin"][1])
+    if cs and len(cs[1]) == 2 and isinstance(st["_pmin"][0].value, ast.Call):
+        a_, b_ = cs[1]
+        operands = list(st["_pmin"][0].value.args[:2])
+    else:
+        a_, b_ = st["_pmin"][1], st["_pmax"][1]
+        operands = [st["_pmin"][0].value, st["_pmax"][0].value]
     ok = False
     for r, name in v.raises():
         par = v.cfg.parent.get(id(r))
         if not (par and isinstance(par[0], ast.If) and always_raises(par[0].body if par[1] == "body" else par[0].orelse)):
             continue
+        if not v._must_leave_by(v.cfg.node(par[0]), "F" if par[1] == "body" else "T", v.cfg.node(first)):
+            continue
         ct = v.ev.term(par[0].test, at=par[0])
-        heads = v.ctx.heads_in(ct)
-        zero_test = any(h[0] == "call" and h[1] in ("np.all", "np.any", "all", "any", ".all", ".any", "np.isclose",
-                                                     "np.count_nonzero") for h in heads) or \
-            any(h[0] == "cmp" and h[1] in ("eq", "ne", "le", "lt") for h in heads)
-        about = v.ctx.mentions(ct, v.spec("factor")) if True else False
-        if zero_test and about and v._must_leave_by(v.cfg.node(par[0]), "F" if par[1] == "body" else "T", v.cfg.node(first)):
-            # and it must be the degeneracy test of the corners that are about to be stored
-            cs = decode_call(v.ctx, st["_pmin"][1])
-            exact = False
-            if cs and len(cs[1]) == 2:
-                a_, b_ = cs[1]
-                cond = ct if par[1] == "body" else v.ev._not(ct)
-                for text in ("not np.all(b - a)", "not np.all(a - b)", "np.any(b - a == 0)", "np.any(a - b == 0)", "np.any(a == b)",
-                             "not all(b - a)", "not np.all(b != a)", "np.any(np.isclose(a, b))"):
-                    if v.eq(cond, v.spec(text, env={"a": a_, "b": b_})):
-                        exact = True
-                # ... and it must look at the COMPUTED corners, not at an algebraically equal re-derivation (edges * factor,
-                # factor == 0): with a far-away reference point rounding can absorb the scaled extent, the copying form
-                # (constructor) then refuses what such a test lets through
-                if exact:
-                    exact = _reads_stored_operands(v, par[0].test, st["_pmin"][0])
-            ok = ok or exact
-    chk.ob("region.Region.scale::inplace::degenerate-refused", ok, f"{pid}.atomic",
-           "a scale that produces zero edges is refused by the copying form (constructor); the in-place form needs the same "
+        cond = ct if par[1] == "body" else v.ev._not(ct)
+        exact = False
+        for text in ("not np.all(b - a)", "not np.all(a - b)", "np.any(b - a == 0)", "np.any(a - b == 0)", "np.any(a == b)",
+                     "not all(b - a)", "not np.all(b != a)", "np.any(np.isclose(a, b))", "not np.all(a < b)", "np.any(a >= b)",
+                     "not np.all(b > a)", "np.any(b <= a)"):
+            if v.eq(cond, v.spec(text, env={"a": a_, "b": b_})):
+                exact = True
+        # ... and it must look at the COMPUTED corners, not at an algebraically equal re-derivation (edges * factor,
+        # self.edges, factor == 0): with a far-away reference point or translation vector rounding can absorb the extent,
+        # the copying form (constructor) then refuses what such a test lets through
+        if exact:
+            exact = _reads_operands(v, par[0].test, operands, first)
+        ok = ok or exact
+    chk.ob(f"{q}::inplace::degenerate-refused", ok, f"{pid}.atomic",
+           "a step whose result has a zero edge is refused by the copying form (constructor); the in-place form needs the same "
            "refusal, evaluated on the corners it has just computed and is about to store (not on a re-derivation such as "
-           "edges * factor, which rounding can make disagree with them)", v.f, first)
+           "edges * factor or self.edges, which rounding can make disagree with them)", v.f, first)
 
 
 def _reads_stored_operands(v, test, store_stmt):
-    """does the test combine exactly the two operand expressions of the `np.minimum(X, Y)` that store_stmt writes?
-    (same expressions syntactically; for local names additionally the same value at both program points)"""
     val = store_stmt.value
     if not (isinstance(val, ast.Call) and len(val.args) == 2):
         return False
-    want = sorted(ast.dump(a) for a in val.args)
+    return _reads_operands(v, test, list(val.args), store_stmt)
+
+
+def _reads_operands(v, test, operands, store_stmt):
+    """does the test combine exactly the two operand expressions that are stored (or min/max-ed and stored)?
+    (same expressions syntactically; for local names additionally the same value at both program points)"""
+    if len(operands) != 2:
+        return False
+    want = sorted(ast.dump(a) for a in operands)
     for n in ast.walk(test):
         pair = None
         if isinstance(n, ast.BinOp) and isinstance(n.op, ast.Sub):
